@@ -44,6 +44,23 @@ CLASSIC = [
 PARAMS_FN = '{|a, b, c, k1: 10, k2: 20| [a, b, c, k1, k2, \\0, \\_, \\_.keys, \\_.items, \\_@{|k, v| v}]}'
 
 
+# programs with a known answer (oracle: the property's own rules, worked out by hand); also compared with PanCore
+EXPECT = [
+    ("argvars_beyond_9", "f := {[\\1, \\8, \\9, \\10, \\11, \\12, \\0.len]}\nf(1,2,3,4,5,6,7,8,9,10,11,12).p\nf(*((1:13).A)).p\n",
+     "[1, 8, 9, 10, 11, 12, 12]\n[1, 8, 9, 10, 11, 12, 12]\n"),
+    ("argvars_outer_11", 'h := {|a| {|| [\\9, \\10, \\11]}("a","b","c","d","e","f","g","h","i","j")}\nh(1,2,3,4,5,6,7,8,9,10,"outer11").p\n',
+     '["i", "j", "outer11"]\n'),
+    ("dstar_operands_unchanged", "show := {|x: 0, y: 0, z: 0| [x, y, z, \\_]}\na := {x: 1}\nb := {y: 2}\nc := {z: 3}\nshow(**a, **b, **c).p\n[a, b, c].p\nshow(**a).p\n"
+     "f3 := {|p, q| [p, q, \\_]}\nf3(10, *[20], **a, **b).p\n[a, b].p\nshow(**b, **a).p\n[a, b].p\n",
+     '[1, 2, 3, {"x": 1, "y": 2, "z": 3}]\n[{"x": 1}, {"y": 2}, {"z": 3}]\n[1, 0, 0, {"x": 1}]\n[10, 20, {"x": 1, "y": 2}]\n[{"x": 1}, {"y": 2}]\n'
+     '[1, 2, 0, {"x": 1, "y": 2}]\n[{"x": 1}, {"y": 2}]\n'),
+    ("anon_chain_in_closure_of_method", "o := {v: 20, m: m{|| g := {|| .v}; g()}}\no.m.p\n", "20\n"),
+    ("anon_chain_kwonly_closure", "w := {|x| {|k: 1| .v + k}(k: 10)}\nw({v: 20}).p\n", "30\n"),
+    ("anon_chain_two_levels", "z := {|x| {|| {|| .v}()}()}\nz({v: 7}).p\n", "7\n"),
+    ("anon_chain_own_argument", "{|x| {|y| .v}({v: 1})}({v: 2}).p\n", "1\n"),
+]
+
+
 def binding_cases():
     """every arity 0..5, every interleaving of <=2 keyword and <=3 positional arguments,
     `*` / `**` at every position — grouped so that members of a group must agree."""
@@ -132,6 +149,10 @@ def main(chk):
     cases = []  # (family, program)
     for name, prog in CLASSIC:
         cases.append(("classic:" + name, prog + "\n"))
+    expect_at = {}
+    for name, prog, exp in EXPECT:
+        expect_at[len(cases)] = exp
+        cases.append(("expect:" + name, prog))
     groups = binding_cases()
     group_of = {}
     for gi, g in enumerate(groups):
@@ -163,6 +184,12 @@ def main(chk):
             viol.append(("two spellings of the same argument list bind differently: `%s` -> %r but `%s` -> %r" % (
                 progs[a].split("\n")[1], res[a]["impl"].get("out"), progs[b].split("\n")[1], res[b]["impl"].get("out")),
                 {"program_a": progs[a], "program_b": progs[b], "impl_a": res[a]["impl"], "impl_b": res[b]["impl"]}, "C03:binding-law"))
+    for i, exp in expect_at.items():
+        imp = res[i]["impl"]
+        if not (imp["kind"] == "value" and imp.get("out") == exp):
+            viol.append(("binding rule violated (%s): expected output %r, implementation gave %r %s" % (
+                cases[i][0], exp, imp.get("out"), (imp.get("errk"), imp.get("errmsg")) if imp["kind"] == "error" else ""),
+                {"program": cases[i][1], "expected_out": exp, "impl": imp}, "C03:" + cases[i][0]))
     for (f, prog), r in zip(cases, res):
         fam[f.split(":")[0]] = fam.get(f.split(":")[0], 0) + 1
         chk.count(prog, True)
@@ -183,12 +210,13 @@ def main(chk):
                          "C03:corpus"))
     chk.cov["input_distribution"] = fam
     chk.cov["binding_groups"] = len(groups)
-    chk.cov["rule"] = ("31 classic scoping programs (shadowing, closures over later reassignment, caller vs definition scope, recursion, "
+    chk.cov["rule"] = ("%d programs with hand-derived answers (argvars beyond \\9, `**` operands left unchanged and reusable, receiver-less chains in "
+                       "closures without positional arguments); 31 classic scoping programs (shadowing, closures over later reassignment, caller vs definition scope, recursion, "
                        "mutual recursion, counters, argvars, kwargvars, defaults, method receiver, anonymous chain); every arity 0..5 x keyword "
                        "sets x ALL interleavings of keyword and positional arguments x `*` at every cut x `**` (grouped: all spellings of one "
                        "argument list must bind alike - checked on the implementation - and equal PanCore); method calls; seeded random "
                        "nestings of function literals (depth<=3) with assignments, compound assignments, inner definitions, calls with arity "
-                       "mismatch; plus the repository's tests/*.pangaea corpus. All compared on stdout, value, error kind+message.")
+                       "mismatch; plus the repository's tests/*.pangaea corpus. All compared on stdout, value, error kind+message." % len(EXPECT))
     for i in (0, len(CLASSIC) + 5, len(progs) - 1):
         chk.sample({"program": progs[i], "impl": {k: res[i]["impl"].get(k) for k in ("kind", "repr", "errk", "out")},
                     "model_verdict": res[i]["verdict"]})
